@@ -1,0 +1,28 @@
+//go:build verif
+
+package formattedoutput
+
+// Machine-checked contracts for the verification machinery in /verif (govc).
+// This file contains comments only and is compiled only with -tags verif.
+
+// the summary is computed from the result set it is given and from nothing else: OutputSummary
+// writes only memory it allocates itself (a table kept between calls would make the counts of one
+// certificate depend on the ones printed before) - C15
+//@ trace func OutputSummary as Sum
+
+//@ func OutputSummary [C15]
+//@   requires zlintResult != nil
+//@   maypanic
+//@   assigns \fresh
+
+//@ func (*resultsTable).newRT [C15]
+//@   requires r != nil && results != nil
+//@   maypanic
+//@   assigns \fresh, r.resultCount, r.resultDetails, r.lintLevelsAboveThreshold, r.sortedLevels
+
+//@ func printTableHeadings [C15]
+//@   maypanic
+//@   assigns \fresh
+//@ func printTableBody [C15]
+//@   maypanic
+//@   assigns \fresh
